@@ -57,12 +57,12 @@ def _call(g, req, rel):
         return out
     if shape == "arc":
         c = req["center"]
-        return t.arc(tgt(req["target"], req["hasz"]), (c[0] - s[0], c[1] - s[1]))
+        return t.arc(tgt(req["target"], req["hasz"]), tuple(req["off"]) if req.get("off") else (c[0] - s[0], c[1] - s[1]))
     if shape == "arc_radius":
         return t.arc_radius(tgt(req["target"], req["hasz"]), req["radius"])
     if shape == "circle":
         c = req["center"]
-        return t.circle((c[0] - s[0], c[1] - s[1]))
+        return t.circle(tuple(req["off"]) if req.get("off") else (c[0] - s[0], c[1] - s[1]))
     if shape == "helix":
         c = req["center"]
         return t.helix(tgt(req["target"], True), (c[0] - s[0], c[1] - s[1]), req["turns"])
@@ -173,6 +173,24 @@ def gen_long(rng):
             "hasz": False, "far": True, "len": 2 * math.pi * r, "turns": 1, "dp": 3, "only_abs": True}
 
 
+def closed_curves(rng, n=24):
+    """Full turns written the way a user writes them (added after seed C10g): start and centre offset in short decimals, both
+    offset components non-zero, both directions -- the start and target vectors of a closed curve then differ in their last
+    bit in either sense."""
+    out = []
+    for _ in range(n // 2):
+        dec = rng.choice([1, 1, 2])
+        s = [round(rng.uniform(0, 40), dec), round(rng.uniform(0, 40), dec), round(rng.uniform(-3, 3), 1)]
+        off = [round(rng.choice([-1, 1]) * rng.uniform(1.1, 9.9), dec), round(rng.choice([-1, 1]) * rng.uniform(1.1, 9.9), dec)]
+        r = math.hypot(*off)
+        c = [s[0] + off[0], s[1] + off[1], s[2]]
+        for ccw in (False, True):
+            out.append({"shape": "circle", "res": rng.choice([0.2, 0.5]), "ccw": ccw, "start": list(s), "turns": 1, "warm": False,
+                        "off": list(off), "target": list(s), "center": list(c), "centers": [list(c)], "r": r, "hasz": False,
+                        "far": True, "len": 2 * math.pi * r})
+    return out
+
+
 # ----------------------------------------------------------------------------- request generators
 def pt(rng, lo=-40, hi=40):
     return [round(rng.uniform(lo, hi), 2), round(rng.uniform(lo, hi), 2), round(rng.uniform(-5, 5), 2)]
@@ -201,6 +219,16 @@ def gen(rng, shape=None, allow_tiny=True):
         r = rng.uniform(4 * res, 45)
         a0 = rng.uniform(-math.pi, math.pi)
         c = [s[0] - r * math.cos(a0), s[1] - r * math.sin(a0), s[2]]
+        if rng.random() < 0.5:
+            # the centre offset as a user writes it: short decimals (added after seed C10g: start + offset is then inexact, and
+            # the start vector is no longer bit-for-bit the target vector of a closed curve)
+            dec = rng.choice([1, 1, 2])
+            off = [round(c[0] - s[0], dec), round(c[1] - s[1], dec)]
+            if off[0] != 0.0 and off[1] != 0.0 and math.hypot(*off) >= 4 * res:
+                req["off"] = off
+                c = [s[0] + off[0], s[1] + off[1], s[2]]
+                r = math.hypot(*off)
+                a0 = math.atan2(s[1] - c[1], s[0] - c[0])
         if shape == "circle":
             t = list(s)
             sweep = 2 * math.pi
